@@ -431,6 +431,14 @@ def check_path_writable(path: str) -> bool:
     try:
         if path.endswith("\\") or path.endswith("/"):
             path = os.path.join(path, ".torrent")
+        if os.path.lexists(path):
+            # something is there already (an earlier metafile that is going
+            # to be replaced, somebody's file at the probe path): it is left
+            # alone, what has to be writable is its directory
+            directory = os.path.dirname(os.path.abspath(path))
+            if not os.access(directory, os.W_OK):
+                raise PermissionError(directory)
+            return True
         with open(path, "ab") as _:
             pass
         os.remove(path)
